@@ -208,3 +208,18 @@ def count(s, ch):
 
 def some(x):
     return x
+
+
+def sumof(v):
+    return sum(v)
+
+
+class Vec(list):
+    """Vec(n, f): the vector [f(0), ..., f(n-1)] (spec language)"""
+
+    def __init__(self, n, f):
+        list.__init__(self, [f(k) for k in range(int(n))])
+
+
+def psum(v, m):
+    return sum(list(v)[:int(m)])
